@@ -590,9 +590,68 @@ fn check_outputs(ex: &Explorer, st: &State, rep: &mut Report, rng: &mut Rng, cfg
   bad
 }
 
-fn check_chain_routes(ex: &Explorer, node: &Node, st: &State, rep: &mut Report) -> Vec<(String, String)> {
+fn check_chain_routes(ex: &Explorer, node: &Node, st: &State, rep: &mut Report, cfg: &IndexCfg, rng: &mut Rng) -> Vec<(String, String)> {
   let mut bad = Vec::new();
   let height = node.height();
+  // newest-first listing of everything
+  rep.eval();
+  let got = pages(|p| ids_page(ex, if p == 0 { "/inscriptions".to_string() } else { format!("/inscriptions/{p}") }), &mut bad, "inscriptions");
+  let want: Vec<InscriptionId> = st.entries.iter().rev().map(|e| e.id).collect();
+  if got == want {
+    rep.count("latest_listing_ok");
+  } else {
+    bad.push(("inscriptions/ids".into(), format!("served {} ids, stored {}; first difference at {:?}", got.len(), want.len(), got.iter().zip(want.iter()).position(|(a, b)| a != b))));
+  }
+  // status
+  rep.eval();
+  match ex.get_json("/status").and_then(|r| r.json::<serde_json::Value>()) {
+    Err(e) => bad.push(("status/request".into(), e)),
+    Ok(v) => {
+      let n0 = bad.len();
+      mismatch(&mut bad, "status/height", &v["height"].as_u64(), &Some(u64::from(height)));
+      mismatch(&mut bad, "status/inscriptions", &v["inscriptions"].as_u64(), &Some(st.entries.len() as u64));
+      mismatch(&mut bad, "status/blessed_inscriptions", &v["blessed_inscriptions"].as_u64(), &Some(st.entries.iter().filter(|e| e.inscription_number >= 0).count() as u64));
+      mismatch(&mut bad, "status/cursed_inscriptions", &v["cursed_inscriptions"].as_u64(), &Some(st.entries.iter().filter(|e| e.inscription_number < 0).count() as u64));
+      mismatch(&mut bad, "status/runes", &v["runes"].as_u64(), &Some(ex.index.runes().map(|r| r.len() as u64).unwrap_or(0)));
+      mismatch(&mut bad, "status/sat_index", &v["sat_index"].as_bool(), &Some(cfg.sats));
+      mismatch(&mut bad, "status/rune_index", &v["rune_index"].as_bool(), &Some(cfg.runes));
+      mismatch(&mut bad, "status/address_index", &v["address_index"].as_bool(), &Some(cfg.addresses));
+      mismatch(&mut bad, "status/transaction_index", &v["transaction_index"].as_bool(), &Some(cfg.transactions));
+      mismatch(&mut bad, "status/unrecoverably_reorged", &v["unrecoverably_reorged"].as_bool(), &Some(false));
+      if bad.len() == n0 {
+        rep.count("status_ok");
+      }
+    }
+  }
+  // per transaction: raw hex, inscription count; per inscription: metadata
+  let mut sample: Vec<&InscriptionEntry> = st.entries.iter().collect();
+  rng.shuffle(&mut sample);
+  for e in sample.iter().take(25) {
+    rep.eval();
+    let Some(tx) = st.txs.get(&e.id.txid) else { continue };
+    let n0 = bad.len();
+    match ex.get(&format!("/r/tx/{}", e.id.txid), &[]).and_then(|r| r.json::<String>()) {
+      Ok(h) => mismatch(&mut bad, "r-tx/hex", &h, &bitcoin::consensus::encode::serialize_hex(tx)),
+      Err(err) => bad.push(("r-tx/request".into(), err)),
+    }
+    match ex.get_json(&format!("/tx/{}", e.id.txid)).and_then(|r| r.json::<serde_json::Value>()) {
+      Ok(v) => mismatch(&mut bad, "tx/inscription_count", &v["inscription_count"].as_u64(), &Some(st.entries.iter().filter(|o| o.id.txid == e.id.txid).count() as u64)),
+      Err(err) => bad.push(("tx/request".into(), err)),
+    }
+    let envelope = ParsedEnvelope::from_transaction(tx).into_iter().nth(e.id.index as usize).map(|x| x.payload);
+    if let Some(envelope) = envelope {
+      match (ex.get(&format!("/r/metadata/{}", e.id), &[]), &envelope.metadata) {
+        (Ok(r), Some(m)) if r.status == 200 => mismatch(&mut bad, "r-metadata/hex", &r.json::<String>().unwrap_or_default(), &hex::encode(m)),
+        (Ok(r), Some(_)) => bad.push(("r-metadata/status".into(), format!("{} for an inscription with metadata", r.status))),
+        (Ok(r), None) if r.status == 404 => {}
+        (Ok(r), None) => bad.push(("r-metadata/status".into(), format!("{} for an inscription without metadata", r.status))),
+        (Err(err), _) => bad.push(("r-metadata/request".into(), err)),
+      }
+    }
+    if bad.len() == n0 {
+      rep.count("transactions_ok");
+    }
+  }
   rep.eval();
   match ex.get("/r/blockheight", &[]) {
     Ok(r) if r.status == 200 && String::from_utf8_lossy(&r.body).trim() == height.to_string() => rep.count("blockheight_ok"),
@@ -747,7 +806,7 @@ pub fn run(ctx: &Ctx, rep: &mut Report) {
     }
     bad.extend(check_listings(&ex, &st, rep, &mut rng, cfg.sats));
     bad.extend(check_outputs(&ex, &st, rep, &mut rng, &cfg));
-    bad.extend(check_chain_routes(&ex, &node, &st, rep));
+    bad.extend(check_chain_routes(&ex, &node, &st, rep, &cfg, &mut rng));
     ex.stop();
 
     let mut seen = BTreeSet::new();
